@@ -242,3 +242,75 @@ Proof.
   - eexists. split; vm_compute; reflexivity.
   - repeat constructor.
 Qed.
+
+(* ====================== TRANSLATOR TIE (Proofs/GenTie*.v) ======================
+   coq/Gen/*.v is the Gallina rendering of the Python source produced by harness/pytrans.py; every run of ./check regenerates it
+   from /repo and compares it function by function with the committed text (evidence: translator_tie).  The theorems below say
+   that the hand-written model (the subject of the theorems above) computes, for ALL inputs satisfying the stated
+   well-formedness, exactly what the translated source computes.  This block stays LAST in the file: its imports shadow
+   model names. *)
+From Coq Require Import List QArith Reals Qreals Lia Lra Arith Bool ZArith.
+From NV Require Import Scalar.Ops Model.Common Model.Basis Model.Knots Model.KnotIns Model.KnotRem Model.LinAlg Model.Degree
+  Gen.Prelude Gen.LinalgInternal Gen.Linalg Gen.Knotvector Gen.Helpers
+  Proofs.GenTieSums Proofs.GenTieLinAlg Proofs.GenTieSubst Proofs.GenTieLU Proofs.GenTieLUSolve Proofs.GenTieKnotRem Proofs.GenTieDegree
+  Proofs.GenTieLib Proofs.GenTieKnots Proofs.GenTieSpan Proofs.GenTieBasis Proofs.GenTieBasisOne
+  Proofs.GenTieDersOne Proofs.GenTieDersLib Proofs.GenTieDers Proofs.GenTieKnotIns.
+Local Open Scope nat_scope.
+From NV Require Import Gen.PreludeExt Gen.LinalgMat Proofs.GenTieMat Proofs.GenTieMatSolve Proofs.GenTieBinom.
+From NV Require Import Gen.PreludeExt Gen.HelpersB Proofs.GenTieKnotRemove.
+From NV Require Import Gen.HelpersB Proofs.GenTieElev.
+From NV Require Import Model.Geom2D Model.Voxel Gen.PreludeExt Gen.LinalgGeom Gen.Voxelize Proofs.GenTieGeom Proofs.GenTieVoxel
+  Proofs.GenTieHull.
+From NV Require Import Model.Hull Gen.Utilities Proofs.GenTieBBox.
+From NV Require Import Model.Fit Gen.Fitting Proofs.GenTieFit.
+From NV Require Import Model.Derivs Proofs.GenTieDerivCpts.
+From NV Require Import Proofs.GenTieArr4 Proofs.GenTieDerivSurf.
+From NV Require Import Model.KnotRefine Proofs.GenTieRefine.
+From NV Require Import Model.Eval Gen.Evaluators Proofs.GenTieEvalLib Proofs.GenTieEvalCurve Proofs.GenTieEvalSurf Proofs.GenTieEvalVol.
+From NV Require Import Model.Derivs Gen.HelpersC Proofs.GenTieBinom Proofs.GenTieBasisAll Proofs.GenTieEvalDerivCurve Proofs.GenTieEvalDerivCurve2.
+From NV Require Import Proofs.GenTieEvalDerivSurf Proofs.GenTieEvalDerivSurfRat Proofs.GenTieEvalDerivSurf2.
+From NV Require Import Model.Weights Gen.Compatibility Proofs.GenTieCompat.
+
+From NV Require Import Model.Layout Gen.Compatibility Proofs.GenTieFlip.
+
+(* [G] compatibility.flip_ctrlpts_u: ALL inputs (IndexError <-> Crash, exactly when len(ctrlpts) < size_u * size_v) *)
+Theorem C13_gen_flip_ctrlpts_u_R : forall (P : list (list R)) (su sv : nat),
+  Compatibility.flip_ctrlpts_u Rops P (Z.of_nat su) (Z.of_nat sv) =
+  res_to_gres (fun x => x) ValueError IndexError (flip_ctrlpts_u_res [] P su sv).
+Proof. exact flip_ctrlpts_u_tie_R. Qed.
+Print Assumptions C13_gen_flip_ctrlpts_u_R.
+Theorem C13_gen_flip_ctrlpts_u_Q : forall (P : list (list Q)) (su sv : nat),
+  Compatibility.flip_ctrlpts_u Qops P (Z.of_nat su) (Z.of_nat sv) =
+  res_to_gres (fun x => x) ValueError IndexError (flip_ctrlpts_u_res [] P su sv).
+Proof. exact flip_ctrlpts_u_tie_Q. Qed.
+Print Assumptions C13_gen_flip_ctrlpts_u_Q.
+
+(* [G] compatibility.flip_ctrlpts: ALL inputs *)
+Theorem C13_gen_flip_ctrlpts_R : forall (P : list (list R)) (su sv : nat),
+  Compatibility.flip_ctrlpts Rops P (Z.of_nat su) (Z.of_nat sv) =
+  res_to_gres (fun x => x) ValueError IndexError (flip_ctrlpts_res [] P su sv).
+Proof. exact flip_ctrlpts_tie_R. Qed.
+Print Assumptions C13_gen_flip_ctrlpts_R.
+Theorem C13_gen_flip_ctrlpts_Q : forall (P : list (list Q)) (su sv : nat),
+  Compatibility.flip_ctrlpts Qops P (Z.of_nat su) (Z.of_nat sv) =
+  res_to_gres (fun x => x) ValueError IndexError (flip_ctrlpts_res [] P su sv).
+Proof. exact flip_ctrlpts_tie_Q. Qed.
+Print Assumptions C13_gen_flip_ctrlpts_Q.
+
+(* [G] compatibility.flip_ctrlpts2d; wf: a first row exists and the table has size_u rows of >= size_v points (sizes as given, or as detected when one is 0) *)
+Theorem C13_gen_flip_ctrlpts2d_R : forall (V : list (list (list R))) (su sv : nat),
+  V <> [] -> flip2d_su V su sv <= length V -> (forall j, j < flip2d_su V su sv -> flip2d_sv V su sv <= length (nth j V [])) ->
+  Compatibility.flip_ctrlpts2d Rops V (Z.of_nat su) (Z.of_nat sv) = GOk (Layout.flip_ctrlpts2d [] V su sv).
+Proof. exact flip_ctrlpts2d_tie_R. Qed.
+Print Assumptions C13_gen_flip_ctrlpts2d_R.
+Theorem C13_gen_flip_ctrlpts2d_Q : forall (V : list (list (list Q))) (su sv : nat),
+  V <> [] -> flip2d_su V su sv <= length V -> (forall j, j < flip2d_su V su sv -> flip2d_sv V su sv <= length (nth j V [])) ->
+  Compatibility.flip_ctrlpts2d Qops V (Z.of_nat su) (Z.of_nat sv) = GOk (Layout.flip_ctrlpts2d [] V su sv).
+Proof. exact flip_ctrlpts2d_tie_Q. Qed.
+Print Assumptions C13_gen_flip_ctrlpts2d_Q.
+Example C13_gen_nonvacuous :
+  Compatibility.flip_ctrlpts_u Qops [[0]; [1]; [2]; [3]; [4]; [5]]%Q 2 3 = GOk [[0]; [2]; [4]; [1]; [3]; [5]]%Q
+  /\ flip_ctrlpts_u_res [] [[0]; [1]; [2]; [3]; [4]; [5]]%Q 2 3 = Ok [[0]; [2]; [4]; [1]; [3]; [5]]%Q
+  /\ Compatibility.flip_ctrlpts_u Qops [[0]; [1]; [2]; [3]; [4]; [5]]%Q 2 4 = GErr IndexError.
+Proof. split; [|split]; vm_compute; reflexivity. Qed.
+
